@@ -1,6 +1,6 @@
 """C14 - spatial weights are nearest-sensor area fractions; montecarlo_fn uses them.
 
-E2.  Three families of root cases:
+E2.  Five families of root cases:
 
 * ``vor``  - one sensor layout (a 4/5/6-subset of a 3x3 lattice, jittered or
   regular); under it every case of the space
@@ -12,6 +12,18 @@ E2.  Three families of root cases:
 * ``line`` - (nearly) collinear arrays: the area fractions are parallel strips
   and perfectly well defined; kept apart (own violation keys) because the
   Qhull/far-point machinery is known to be fragile there.
+* ``twin`` - one jittered layout plus a second sensor a distance 2^-e pitches away
+  from one of its sensors (a re-occupied station): every case of {spacing} x
+  {which sensor} x {direction} x {boundary} x {scale} (quick: within 2 deviations);
+  the two share the cell of the location; the sum of all weights is held to 1e-9,
+  the individual weights to the conditioning of the bisector between the two.
+* ``session`` - histories of requests in ONE process: two live ``HvsrSpatial``
+  objects, both public entry points, boundaries handed over as a fresh list, a fresh
+  array or ONE array object the caller keeps and overwrites in place, requests that
+  are refused (fewer than three / no sensors inside, wrong shape, unknown method)
+  after which the history goes on.  Every request of every history of the stated
+  length is judged on its own against the exact tessellation of the arguments of
+  THAT request: the statement is about the value of one call.
 * ``mc``   - ``montecarlo_fn`` for one (generator distribution, spatial
   distribution, generator count, means, stddevs, weights) and under it every
   n_realizations x seed; statistics recomputed from the returned realisations
@@ -111,19 +123,26 @@ def rtol_for(translation):
 
 def call_weights(sensors, boundary):
     """-> ("ok", weights list, indices list) or ("raised", type, text)."""
+    return call_weights_on(None, np.array(boundary, dtype=float), sensors=sensors)
+
+
+def call_weights_on(hs, boundary, sensors=None, **kwargs):
+    """spatial_weights on a live object (or on a fresh one made from ``sensors``)."""
     try:
-        hs = HvsrSpatial(np.array(sensors, dtype=float))
-        w, idx = hs.spatial_weights(np.array(boundary, dtype=float))
+        if hs is None:
+            hs = HvsrSpatial(np.array(sensors, dtype=float))
+        w, idx = hs.spatial_weights(boundary, **kwargs)
         return ("ok", [float(v) for v in np.asarray(w).ravel()], [int(i) for i in idx])
     except Exception as e:      # noqa: BLE001 - judged by the caller
         return ("raised", type(e).__name__, (str(e).strip().splitlines() or [""])[0][:200],
                 traceback.format_exc()[-1200:])
 
 
-def judge_weights(res, ref, rtol):
+def judge_weights(res, ref, rtol, sum_rtol=None):
     """Compare one spatial_weights result with the exact tessellation.
 
     Returns a list of (oracle tag, explanation, expected, observed)."""
+    sum_rtol = rtol if sum_rtol is None else sum_rtol
     exp_idx = ref["indices"]
     exp_w = {i: float(ref["weights"][i]) for i in exp_idx}
     if res[0] == "raised":
@@ -138,7 +157,7 @@ def judge_weights(res, ref, rtol):
         return out
     if any((not math.isfinite(v)) or v < 0 for v in w):
         out.append(("negative", "a weight is negative or not finite", exp_w, w))
-    if not abs(math.fsum(w) - 1.0) <= rtol:
+    if not abs(math.fsum(w) - 1.0) <= sum_rtol:
         out.append(("sum", f"weights sum to {math.fsum(w)!r}, not 1", 1.0, math.fsum(w)))
     bad = [(i, v, exp_w[i]) for i, v in zip(idx, w)
            if not abs(v - exp_w[i]) <= rtol * exp_w[i] + 1e-15]
@@ -146,6 +165,51 @@ def judge_weights(res, ref, rtol):
         out.append(("weights-vs-ref", "weight differs from the exact nearest-sensor area fraction "
                     f"(first: sensor {bad[0][0]}: {bad[0][1]!r} vs {bad[0][2]!r})",
                     exp_w, dict(zip(idx, w))))
+    return out
+
+
+def call_regions(hs, boundary):
+    """-> ("ok", regions, indices) or ("raised", type, text, traceback)."""
+    try:
+        regions, idx = hs.bounded_voronoi(boundary)
+        return ("ok", [[(float(x), float(y)) for x, y in np.asarray(r)] for r in regions],
+                [int(i) for i in idx])
+    except Exception as e:      # noqa: BLE001 - judged by the caller
+        return ("raised", type(e).__name__, (str(e).strip().splitlines() or [""])[0][:200],
+                traceback.format_exc()[-1200:])
+
+
+def judge_regions(res, sensors, ref, scale=1.0):
+    """bounded_voronoi: every returned region lies in the hull, in the nearest-sensor cell
+    of its sensor, and has the area of that cell.  -> list of (tag, explanation, exp, obs)."""
+    if res[0] == "raised":
+        return [("raises", f"bounded_voronoi raised {res[1]}: {res[2]}", ref["indices"], list(res[1:3]))]
+    _, regions, idx = res
+    if sorted(idx) != ref["indices"] or len(regions) != len(idx) or len(set(idx)) != len(idx):
+        return [("indices", "bounded_voronoi indices are not the sensors strictly inside the hull",
+                 ref["indices"], idx)]
+    out = []
+    hull = [(float(x), float(y)) for x, y in ref["hull"]]
+    harea = float(ref["hull_area"])
+    tol = 1e-9 * (EXTENT * scale) ** 2
+    for reg, i in zip(regions, idx):
+        area = abs(float(RV.shoelace([(Fraction(x), Fraction(y)) for x, y in reg])))
+        exp = float(ref["weights"][i])
+        if not abs(area / harea - exp) <= 1e-9 * exp:
+            out.append(("area", f"area of the region returned for sensor {i} is not its cell's area",
+                        exp * harea, area))
+        px, py = sensors[i]
+        for (x, y) in reg:
+            inside = all((bx - ax) * (y - ay) - (by - ay) * (x - ax) >= -tol
+                         for (ax, ay), (bx, by) in zip(hull, hull[1:] + hull[:1]))
+            d0 = (x - px) ** 2 + (y - py) ** 2
+            nearest = all(d0 <= (x - sensors[j][0]) ** 2 + (y - sensors[j][1]) ** 2 + tol
+                          for j in ref["indices"])
+            if not (inside and nearest):
+                out.append(("vertex", f"vertex ({x}, {y}) of the region of sensor {i} is "
+                            + ("outside the hull" if not inside else "closer to another sensor"),
+                            None, reg))
+                break
     return out
 
 
@@ -260,43 +324,11 @@ class VorRoot:
         cell of its sensor, and has the area of that cell."""
         ctx = self.ctx
         ctx.count("transitions")
-        try:
-            regions, idx = HvsrSpatial(np.array(sensors)).bounded_voronoi(np.array(boundary))
-        except Exception as e:      # noqa: BLE001
-            self.violation("bounded_voronoi-raises", case, f"bounded_voronoi raised {type(e).__name__}: {e}",
-                           None, type(e).__name__)
-            return
-        idx = [int(i) for i in idx]
-        if sorted(idx) != ref["indices"] or len(regions) != len(idx):
-            self.violation("bounded_voronoi-indices", case,
-                           "bounded_voronoi indices are not the sensors strictly inside the hull",
-                           ref["indices"], idx)
-            return
-        hull = [(float(x), float(y)) for x, y in ref["hull"]]
-        harea = float(ref["hull_area"])
-        tol = 1e-9 * EXTENT * EXTENT
-        for reg, i in zip(regions, idx):
-            reg = [(float(x), float(y)) for x, y in np.asarray(reg)]
-            area = abs(float(RV.shoelace([(Fraction(x), Fraction(y)) for x, y in reg])))
-            exp = float(ref["weights"][i])
-            if not abs(area / harea - exp) <= 1e-9 * exp:
-                self.violation("bounded_voronoi-area", case,
-                               f"area of the region returned for sensor {i} is not its cell's area",
-                               exp * harea, area)
-            px, py = sensors[i]
-            for (x, y) in reg:
-                inside = all((bx - ax) * (y - ay) - (by - ay) * (x - ax) >= -tol
-                             for (ax, ay), (bx, by) in zip(hull, hull[1:] + hull[:1]))
-                d0 = (x - px) ** 2 + (y - py) ** 2
-                nearest = all(d0 <= (x - sensors[j][0]) ** 2 + (y - sensors[j][1]) ** 2 + tol
-                              for j in ref["indices"])
-                if not (inside and nearest):
-                    self.violation("bounded_voronoi-vertex", case,
-                                   f"vertex ({x}, {y}) of the region of sensor {i} is "
-                                   + ("outside the hull" if not inside else "closer to another sensor"),
-                                   None, reg)
-                    break
-        ctx.count("regions_checked", len(idx))
+        res = call_regions(HvsrSpatial(np.array(sensors)), np.array(boundary))
+        for tag, expl, exp, obs in judge_regions(res, sensors, ref):
+            self.violation("bounded_voronoi-" + tag, case, expl, exp, obs)
+        if res[0] == "ok":
+            ctx.count("regions_checked", len(res[2]))
 
 
 def run_vor(root, ctx, tier):
@@ -375,6 +407,219 @@ def _max_circumradius(sensors):
             return "inf"
         best = max(best, la * lb * lc / (2 * area2))
     return best
+
+
+# ---------------------------------------------------------------------------
+# twin roots: two sensors that are almost, but not exactly, at the same place
+
+TWIN_EXPONENTS = [26, 10, 22, 18, 30]            # spacing 2^-e lattice pitches (extent 2)
+TWIN_DIRECTIONS = {"x": (1.0, 0.0), "y": (0.0, 1.0), "up-right": (0.5, 0.75), "up-left": (-0.75, 0.5)}
+TWIN_SCALES = [1.0, 1e3, 1e-3]
+
+
+def twin_space(k, tier):
+    """quick: the first three spacings and the first two scales."""
+    q = tier == "quick"
+    return dict(exponent=TWIN_EXPONENTS[:3] if q else TWIN_EXPONENTS, twin_of=list(range(k)),
+                direction=list(TWIN_DIRECTIONS), boundary=BOUNDARY_NAMES,
+                scale=TWIN_SCALES[:2] if q else TWIN_SCALES)
+
+
+def twin_rtol(exponent):
+    """The bisector between the two sensors turns by (rounding error of a coordinate) / spacing,
+    and the circumcentre of the two with a third sensor is known to (rounding error) x extent /
+    spacing: weights carry a condition number of about extent / spacing.  Sixteen units of that
+    (the largest error seen on the unchanged code is 1.2 units, at 2^-26), never below 1e-9."""
+    return max(1e-9, 16.0 * 2.0 ** -52 * EXTENT * 2.0 ** exponent)
+
+
+def run_twin(root, ctx, tier):
+    L = lattice(root["family"])
+    base = [L[i] for i in root["subset"]]
+    n = len(base)
+    for case in product.deviations(twin_space(n, tier), root["k"]):
+        ctx.count("states")
+        dx, dy = TWIN_DIRECTIONS[case["direction"]]
+        px, py = base[case["twin_of"]]
+        h = 2.0 ** -case["exponent"]
+        pts = base + [(px + dx * h, py + dy * h)]
+        sensors = place(pts, 0.0, case["scale"])
+        boundary = place(BOUNDARIES[case["boundary"]], 0.0, case["scale"])
+        a, b = case["twin_of"], n
+        if sensors[a] == sensors[b]:
+            raise AssertionError("alphabet: the two sensors must stay distinct")
+        ref = RV.tessellate(sensors, boundary)
+        if len(ref["indices"]) != n + 1:
+            raise AssertionError("alphabet: all sensors must be inside the boundary")
+        ctx.count("transitions")
+        res = call_weights(sensors, boundary)
+        # all weights at the conditioning of the pair's bisector (the Voronoi vertices the pair
+        # shares with its neighbours are circumcentres of sliver triangles, so the neighbours'
+        # weights and the pair's sum carry the same amplification); the cells still tile the
+        # hull whatever the vertices are, so the sum of all weights is held to 1e-9
+        problems = judge_weights(res, ref, twin_rtol(case["exponent"]), sum_rtol=1e-9)
+        ctx.count("validated")
+        ctx.count("twin_cases")
+        for tag, expl, exp, obs in problems:
+            ctx.violation(f"C14:spatial_weights:near-coincident-pair:{tag}", root,
+                          detail=dict(case=case, sensors=sensors, boundary=boundary, pair=[a, b],
+                                      spacing_in_pitches=h, rtol_individual=twin_rtol(case["exponent"]),
+                                      call="HvsrSpatial(sensors).spatial_weights(boundary)"),
+                          expected=exp, observed=obs, explanation=expl)
+        if problems:
+            ctx.outcome(("twin", "problem", [p[0] for p in problems]))
+            continue
+        wl = [float(ref["weights"][i]) for i in ref["indices"]]
+        ctx.outcome(("twin", [round(v, 9) for v in wl]))
+        ctx.nontrivial_case(("twin", root["subset"], case["twin_of"], case["direction"], case["boundary"],
+                             case["exponent"]))
+        # non-vacuity: does the pair sit on the edge of the array (unbounded cells)?
+        others = [p for j, p in enumerate(pts) if j not in (a, b)]
+        hull = RV.convex_hull(others + [pts[a]])
+        if not RV.strictly_inside(pts[a], RV.convex_hull(others)) or len(hull) < 3:
+            ctx.count("twin_on_array_edge")
+        else:
+            ctx.count("twin_in_array_interior")
+
+
+# ---------------------------------------------------------------------------
+# session roots: histories of requests on live objects in one process
+
+SESSION_BOUNDARIES = {          # four points each, so that ONE array object can hold any of them
+    "square": [(-0.5, -0.5), (2.5, -0.5), (2.5, 2.5), (-0.5, 2.5)],        # the lattice
+    "wide": [(-2.0, -1.0), (3.5, -1.0), (3.5, 3.5), (-2.0, 3.5)],           # lattice + both outside sensors
+    "trapezoid": [(-0.75, -0.5), (2.75, -0.5), (2.375, 2.5), (-0.25, 2.5)],  # the lattice, other areas
+    "two": [(1.5, -0.5), (2.5, -0.5), (2.5, 1.5), (1.5, 1.5)],              # lattice nodes 2 and 5 only
+    "none": [(4.0, 4.0), (5.0, 4.0), (5.0, 5.0), (4.0, 5.0)],               # no sensor at all
+}
+SESSION_PASSING = ["list", "array", "same-array"]
+# (subset of object A, subset of object B); both contain lattice nodes 2 and 5; B is handed over
+# in reverse order; each layout gets the two OUTSIDE sensors (positions 1 and last)
+SESSION_LAYOUTS = [([0, 2, 3, 5, 7, 8], [1, 2, 4, 5, 6]),
+                   ([1, 2, 5, 6, 7], [0, 2, 4, 5, 6, 8]),
+                   ([0, 1, 2, 5, 6, 8], [2, 3, 5, 7, 8])]
+
+
+def session_menu(reduced=False):
+    ops = []
+    for obj in ("A", "B"):
+        for entry in ("spatial_weights", "bounded_voronoi"):
+            for b in (["square", "wide", "two", "none"] if reduced else list(SESSION_BOUNDARIES)):
+                for how in (["list", "same-array"] if reduced else SESSION_PASSING):
+                    ops.append(dict(obj=obj, entry=entry, boundary=b, passing=how))
+        ops.append(dict(obj=obj, entry="spatial_weights", boundary="square", passing="list",
+                        refusal="unknown-method"))
+        if not reduced:
+            ops.append(dict(obj=obj, entry="spatial_weights", boundary="square", passing="array",
+                            refusal="three-columns"))
+            ops.append(dict(obj=obj, entry="bounded_voronoi", boundary="square", passing="list",
+                            refusal="three-columns"))
+    return ops
+
+
+def session_sensors(layout):
+    L = lattice("jitter")
+    a, b = SESSION_LAYOUTS[layout]
+    out = {}
+    for name, sub in (("A", a), ("B", b)):
+        s = [L[i] for i in sub]
+        s.insert(1, OUTSIDE[0])
+        s.append(OUTSIDE[1])
+        out[name] = s[::-1] if name == "B" else s
+    return out
+
+
+class Session:
+    """One history: fresh objects, one boundary array the caller keeps and overwrites."""
+
+    def __init__(self, sensors):
+        self.objs = {k: HvsrSpatial(np.array(v, dtype=float)) for k, v in sensors.items()}
+        self.kept = np.zeros((4, 2))
+        self.kept_history = []          # values the kept array held when it was handed over
+        self.raised_on = []             # objects with a request that raised
+
+    def request(self, op):
+        """-> (history flags, result)."""
+        pts = SESSION_BOUNDARIES[op["boundary"]]
+        flags = []
+        if op["passing"] == "same-array":
+            if any(v != pts for v in self.kept_history):
+                flags.append("boundary-array-overwritten-in-place")
+            self.kept[...] = pts
+            self.kept_history.append(pts)
+            arg = self.kept
+        elif op["passing"] == "array":
+            arg = np.array(pts, dtype=float)
+        else:
+            arg = [list(p) for p in pts]
+        if op["obj"] in self.raised_on:
+            flags.append("after-refused-request-on-this-object")
+        elif self.raised_on:
+            flags.append("after-refused-request-on-other-object")
+        hs = self.objs[op["obj"]]
+        if op.get("refusal") == "three-columns":
+            arg = [list(p) + [0.0] for p in pts]
+            arg = np.array(arg) if op["passing"] == "array" else arg
+        if op.get("refusal") == "unknown-method":
+            res = call_weights_on(hs, arg, declustering_method="polygonal")
+        elif op["entry"] == "spatial_weights":
+            res = call_weights_on(hs, arg)
+        else:
+            res = call_regions(hs, arg)
+        if res[0] == "raised":
+            self.raised_on.append(op["obj"])
+        return flags, res
+
+
+def run_session(root, ctx, tier):
+    sensors = session_sensors(root["layout"])
+    menu = session_menu(root["menu"] == "reduced")
+    refs = {(o, b): RV.tessellate(sensors[o], SESSION_BOUNDARIES[b])
+            for o in sensors for b in SESSION_BOUNDARIES}
+    first = menu[root["first"]]
+    tails = [()]
+    for d in range(1, root["depth"]):
+        tails = tails + [t for t in itertools.product(menu, repeat=d)]
+    for tail in tails:
+        hist = (first,) + tuple(tail)
+        ses = Session(sensors)
+        ctx.count("states")
+        ctx.count("session_histories")
+        for j, op in enumerate(hist):
+            ctx.count("transitions")
+            flags, res = ses.request(op)
+            if j < len(hist) - 1:
+                continue        # every prefix is a history of its own; the last request is judged
+            ref = refs[(op["obj"], op["boundary"])]
+            if op.get("refusal") or len(ref["indices"]) < 4:
+                # outside the quantifier (fewer than four sensors inside) or not a request the
+                # statement speaks about: any outcome is accepted, longer histories go on after it
+                ctx.count("session_requests_not_judged")
+                if res[0] == "raised":
+                    ctx.count("session_requests_refused")
+                continue
+            if op["entry"] == "spatial_weights":
+                problems = judge_weights(res, ref, 1e-9)
+            else:
+                problems = judge_regions(res, sensors[op["obj"]], ref)
+            ctx.count("validated")
+            ctx.count("session_requests_judged")
+            hclass = "+".join(flags) or ("after-valid-request" if j else "first-request")
+            ctx.count("session_judged:" + hclass)
+            ctx.outcome(("session", op["obj"], op["entry"], op["boundary"], hclass,
+                         [p[0] for p in problems]))
+            for tag, expl, exp, obs in problems:
+                ctx.violation(f"C14:session:{op['entry']}:{hclass}:{tag}", root,
+                              detail=dict(history=[dict(o, boundary_points=SESSION_BOUNDARIES[o["boundary"]])
+                                                   for o in hist],
+                                          failing_request=j, sensors=sensors,
+                                          note="objects A and B are created once at the start of the "
+                                               "history; 'same-array' = the caller writes the boundary "
+                                               "into ONE ndarray it keeps (kept[...] = points) and "
+                                               "passes that object",
+                                          exact_indices=ref["indices"]),
+                              expected=exp, observed=obs,
+                              explanation=f"request {j} of the history ({hclass.replace('-', ' ')}): " + expl)
 
 
 # ---------------------------------------------------------------------------
@@ -585,6 +830,18 @@ def check_alphabet():
         xs = [p[0] for p in BOUNDARIES[name]]
         ys = [p[1] for p in BOUNDARIES[name]]
         assert all(min(xs) < x < max(xs) and min(ys) < y < max(ys) for x, y in OUTSIDE)
+    # session boundaries retain exactly the intended sensors, none of them near an edge
+    lim = Fraction(1e-9 * EXTENT) ** 2
+    for layout, (sa, sb) in enumerate(SESSION_LAYOUTS):
+        sens = session_sensors(layout)
+        for name, sub in (("A", sa), ("B", sb)):
+            assert 2 in sub and 5 in sub
+            want = dict(square=len(sub), wide=len(sub) + 2, trapezoid=len(sub), two=2, none=0)
+            for b, pts in SESSION_BOUNDARIES.items():
+                hull = RV.convex_hull(pts)
+                assert sum(RV.strictly_inside(q, hull) for q in sens[name]) == want[b], (layout, name, b)
+                assert all(RV.boundary_clearance(q, hull) > lim for q in sens[name])
+    assert all(len(v) == 4 for v in SESSION_BOUNDARIES.values())
 
 
 def roots(tier, seed):
@@ -600,6 +857,19 @@ def roots(tier, seed):
         for k in (4, 5, 6):
             for sub in itertools.combinations(range(9), k):
                 out.append(dict(kind="vor", family=fam, subset=list(sub), k=dev))
+    # near-coincident pairs: quick = 4-sensor layouts within 2 deviations; thorough = within 3
+    # deviations, plus 5- and 6-sensor layouts within 2 deviations
+    for k in ((4,) if tier == "quick" else (4, 5, 6)):
+        for sub in itertools.combinations(range(9), k):
+            out.append(dict(kind="twin", family="jitter", subset=list(sub),
+                            k=3 if (tier != "quick" and k == 4) else 2))
+    # histories: one root per (layout pair, first request)
+    for layout in range(1 if tier == "quick" else len(SESSION_LAYOUTS)):
+        for first in range(len(session_menu())):
+            out.append(dict(kind="session", layout=layout, menu="full", depth=2, first=first))
+    if tier != "quick":
+        for first in range(len(session_menu(True))):
+            out.append(dict(kind="session", layout=0, menu="reduced", depth=3, first=first))
     return out
 
 
@@ -608,6 +878,10 @@ def run_root(root, ctx, tier):
         run_vor(root, ctx, tier)
     elif root["kind"] == "line":
         run_line(root, ctx, tier)
+    elif root["kind"] == "twin":
+        run_twin(root, ctx, tier)
+    elif root["kind"] == "session":
+        run_session(root, ctx, tier)
     else:
         run_mc(root, ctx, tier)
 
@@ -616,7 +890,13 @@ def finalize(ctx, tier):
     c = ctx.counters
     need = ["dropped_sensors", "order_changes_indices", "invariance_compared", "regions_checked",
             "mc_weight_sensitive", "mc_std_definition_sensitive", "closed_form_cases",
-            "line_cases_agreeing"]
+            "line_cases_agreeing", "twin_on_array_edge", "twin_in_array_interior",
+            "session_requests_refused",
+            "session_judged:first-request", "session_judged:after-valid-request",
+            "session_judged:boundary-array-overwritten-in-place",
+            "session_judged:after-refused-request-on-this-object",
+            "session_judged:after-refused-request-on-other-object",
+            "session_judged:boundary-array-overwritten-in-place+after-refused-request-on-this-object"]
     missing = [k for k in need if not c.get(k, 0)]
     # the counters are only advanced by cases that pass; with violations outside the
     # collinear families on record they say nothing about vacuity
@@ -642,6 +922,23 @@ def describe(tier):
              "(indices, non-negativity, sum, area fractions, invariance vs. the untransformed run; "
              "bounded_voronoi regions at the untransformed cases).  line roots: 4-5 exactly/nearly "
              "collinear sensors (eps 0, 2^-6, 2^-12, 2^-20) x 2 directions x 4 boundaries x scale {1,1e3}.  "
+             "twin roots: a jittered layout plus one more sensor 2^-e pitches ("
+             + ("e in 26,10,22" if tier == "quick" else "e in 26,10,22,18,30") + ") from one of its sensors: "
+             + ("all 126 4-subsets, every case within 2 deviations" if tier == "quick" else
+                "all 4-subsets within 3 deviations, all 5- and 6-subsets within 2 deviations")
+             + " of spacing x which sensor (all) x direction {x, y, two oblique} x 4 boundaries x scale "
+             + ("{1,1e3}" if tier == "quick" else "{1,1e3,1e-3}") +
+             "; judged against the exact tessellation: indices, non-negativity, sum of all weights at 1e-9, "
+             "every weight at max(1e-9, 16 eps extent/spacing).  "
+             "session roots: every history of " + ("1-2" if tier == "quick" else "1-2 (3 layout pairs) and, "
+             "over a reduced menu of 34 requests, 1-3") + " requests from a menu of 66 = 2 live objects "
+             "(different layouts, one in reverse order, both with two outside sensors) x {spatial_weights, "
+             "bounded_voronoi} x boundary {square, wide (retains the outside sensors), trapezoid, one holding "
+             "two sensors, one holding none} x boundary handed over as {fresh list, fresh array, ONE array "
+             "the caller keeps and overwrites in place} + 6 malformed requests (three-column boundary, "
+             "unknown declustering method); the last request of every history is judged by itself against "
+             "the exact tessellation of its own arguments (requests with fewer than four sensors inside "
+             "are executed, not judged, and the history goes on).  "
              "mc roots: full product of generator/spatial distribution (4) x generator count {4,2} x "
              "3 mean menus x 3 stddev menus (incl. all zero) x 5 weight menus (one produced by the real "
              "tessellation); under each n_realizations {1,10,1000} x seeds "
@@ -651,11 +948,24 @@ def describe(tier):
              "case when its weighted mean differs from the unweighted one.",
         bounds=dict(vor_cases_per_root=nvor, vor_roots=672, deviations="2 jitter / 1 regular" if tier == "quick" else "full",
                     mc_roots=product.size(MC_SPACE, None), seeds=10 if tier == "quick" else 50,
+                    twin_roots=126 if tier == "quick" else 336,
+                    twin_cases_per_4_sensor_root=product.size(twin_space(4, tier), 2 if tier == "quick" else 3),
+                    session_menu=len(session_menu()), session_depth="2" if tier == "quick" else "2 (full menu), 3 (reduced menu)",
+                    session_histories=(len(session_menu()) * (1 + len(session_menu())) * (1 if tier == "quick" else 3)
+                                       + (0 if tier == "quick" else
+                                          sum(len(session_menu(True)) ** d for d in (1, 2, 3)))),
                     n_realizations=MC_NREAL, rtol="1e-9 (1e-6 at translation 1e4 extents)"),
         exhaustive=True,
         assumptions=["sensors exactly on the boundary are not generated (a knife-edge guard of 1e-9 extent "
                      "skips them); only strictly inside / strictly outside sensors are judged",
                      "the order of the returned indices is not pinned, only the mapping index -> weight",
+                     "near-coincident sensors are at least 2^-30 pitches apart; exactly coincident sensors "
+                     "(no nearest-sensor cell) are not generated; the weights of such a layout are held only "
+                     "to the conditioning of the pair's bisector, max(1e-9, 16 eps extent/spacing) (4.8e-7 at "
+                     "2^-26, 7.6e-6 at 2^-30 pitches), their total to 1e-9",
+                     "a history is a sequence of requests in one process on objects created at its start; "
+                     "requests the statement does not quantify over (fewer than four sensors inside, malformed "
+                     "arguments) may raise or return anything, but the requests after them are judged",
                      "weighted standard deviation = sqrt(sum w'(x-m)^2 / (1 - sum w'^2)) over all realisations "
                      "with w' = w_i / (n_realizations * sum w) (the reliability-weights estimator)",
                      "normal generators feeding a lognormal spatial distribution are given means >= 9 sigma "
